@@ -16,7 +16,7 @@ import (
 )
 
 func init() {
-	extraGroups = append(extraGroups, Group{Out: "C09Facts.lean", Imports: []string{"OidcModel.Model.C09", "OidcModel.Model.C09Bounds", "OidcModel.Model.C09Fields"}, NS: "GenC09", Extra: c09Facts})
+	extraGroups = append(extraGroups, Group{Out: "C09Facts.lean", Imports: []string{"OidcModel.Model.C09", "OidcModel.Model.C09Bounds", "OidcModel.Model.C09Fields", "OidcModel.Model.C09Asserts"}, NS: "GenC09", Extra: c09Facts})
 }
 
 var c09Dirs = []string{"pkg/oidc", "pkg/oidc/grants", "pkg/oidc/grants/tokenexchange", "pkg/op", "pkg/http", "pkg/crypto", "pkg/strings",
@@ -30,44 +30,13 @@ type c09Site struct {
 	Pos                       string
 }
 
-func c09UncheckedAsserts(g *genCtx) [][2]string {
+// c09UncheckedAsserts: the single-value type assertions `x.(T)` that no guard on the same operand dominates
+// (asserts_c09.go records every assertion with its form, origin and guards; this is the unguarded part)
+func c09UncheckedAsserts(sites []c09ASite) [][2]string {
 	var out [][2]string
-	for _, dir := range c09Dirs {
-		for _, rel := range c09GoFiles(dir) {
-			f := g.file(rel)
-			if f == nil {
-				continue
-			}
-			for _, d := range f.Decls {
-				fd, ok := d.(*ast.FuncDecl)
-				if !ok || fd.Body == nil {
-					continue
-				}
-				checked := map[*ast.TypeAssertExpr]bool{}
-				ast.Inspect(fd.Body, func(n ast.Node) bool {
-					switch v := n.(type) {
-					case *ast.AssignStmt:
-						if len(v.Lhs) == 2 && len(v.Rhs) == 1 {
-							if ta, ok := v.Rhs[0].(*ast.TypeAssertExpr); ok {
-								checked[ta] = true
-							}
-						}
-					case *ast.ValueSpec:
-						if len(v.Names) == 2 && len(v.Values) == 1 {
-							if ta, ok := v.Values[0].(*ast.TypeAssertExpr); ok {
-								checked[ta] = true
-							}
-						}
-					}
-					return true
-				})
-				ast.Inspect(fd.Body, func(n ast.Node) bool {
-					if ta, ok := n.(*ast.TypeAssertExpr); ok && ta.Type != nil && !checked[ta] {
-						out = append(out, [2]string{shortPkg(rel) + "." + declName(fd), render(g.fset, ta)})
-					}
-					return true
-				})
-			}
+	for _, s := range sites {
+		if s.unsafe() {
+			out = append(out, [2]string{s.Fn, s.Expr})
 		}
 	}
 	return out
@@ -352,7 +321,8 @@ func c09Facts(g *genCtx) string {
 	g.facts["C09.handlers"] = factSk
 
 	b.WriteString("/-! kind W: failure sites -/\n")
-	ua := c09UncheckedAsserts(g)
+	asites := c09AssertSites(g)
+	ua := c09UncheckedAsserts(asites)
 	var uas []string
 	for _, u := range ua {
 		uas = append(uas, "("+leanStr(u[0])+", "+leanStr(u[1])+")")
@@ -395,6 +365,7 @@ func c09Facts(g *genCtx) string {
 	g.facts["C09.closureAssigned"] = ca
 
 	b.WriteString(c09BoundFacts(g))
+	b.WriteString(c09AssertFacts(g, asites))
 	b.WriteString(c09FieldFacts(g))
 	ng := c09NilGuards(g)
 	var ngs []string
